@@ -397,7 +397,44 @@ def translate_tables(run: Run) -> dict:
     return info
 
 
+def parse_line(line: str):
+    """inverse of line_of (used by --replay)"""
+    def ent(t):
+        a = t.split('-')
+        return int(a[0]) if len(a) == 1 else (int(a[0]), int(a[1]))
+
+    def ents(t):
+        return [] if t in ('_', '') else [ent(x) for x in t.split(',')]
+    head, _, ops_s = line.partition(' OPS=')
+    f = dict(kv.split('=', 1) for kv in head.split(' '))
+    base, n = map(int, f['W'].split(','))
+    ops = []
+    for o in filter(None, ops_s.replace(' complement', '').split(';')):
+        name, arg = o.strip().split(' ', 1)
+        ops.append((name, ent(arg) if name in ('add', 'disc') else
+                    ((ents(arg), False) if name in ('upd', 'dupd') else ents(arg))))
+    return base, n, ents(f['I']), ops
+
+
+def replay(run: Run) -> int:
+    import json
+    data = json.loads(open(run.replay).read())
+    fi = data.get('failing_input')
+    if not fi or not isinstance(fi.get('case'), str):
+        print('replay file names no concrete input:', data.get('broken'))
+        return 1
+    case = parse_line(fi['case'])
+    compare(run, [case])
+    bad = [d for d in run.disagreements if not (d.kind == 'violation' and 'F13' in d.tags)]
+    for d in bad:
+        print('REPRODUCED', d.to_json())
+    print('replayed', fi['case'], '->', 'still failing' if bad else 'no longer failing')
+    return 1 if bad else 0
+
+
 def body(run: Run) -> int:
+    if getattr(run, 'replay', None):
+        return replay(run)
     info = translate_tables(run)
     run.stats.extra['tables'] = info
     run.trusted_base += ['translator harness/c13.py::translate_tables (prints live tables as Lean literals)',
